@@ -157,6 +157,27 @@ fn decode(mut i: u64, alphabet: &[&str], maxlen: u32) -> String {
     s
 }
 
+/// Same index space as `decode`, as the list of lexemes.
+fn decode_lexemes(mut i: u64, alphabet: &[&'static str], maxlen: u32) -> Vec<&'static str> {
+    let k = alphabet.len() as u64;
+    let mut len = 0u32;
+    let mut block = 1u64;
+    while len <= maxlen {
+        if i < block {
+            break;
+        }
+        i -= block;
+        block *= k;
+        len += 1;
+    }
+    let mut v = vec![];
+    for _ in 0..len {
+        v.push(alphabet[(i % k) as usize]);
+        i /= k;
+    }
+    v
+}
+
 fn space(k: u64, maxlen: u32) -> u64 {
     let mut n = 0u64;
     let mut b = 1u64;
@@ -223,10 +244,69 @@ pub fn run(ctx: &Ctx) -> i32 {
         Acc::merge,
         acc_zero,
     );
-    let acc = Acc::merge(Acc::merge(acc1, acc2), acc3);
+    // history independence: one highlighter instance sees a text being typed lexeme by lexeme (cursor at the end, as a
+    // line editor calls it), then one lexeme deleted again; at every step its answers for every cursor must be those
+    // of a fresh instance (which the passes above compare with the reference matcher)
+    let l_typed = ctx.tier.pick(5u32, 6u32);
+    let n4 = space(BASE.len() as u64, l_typed);
+    let acc4 = par_fold(
+        n4,
+        1024,
+        || (),
+        |_, acc, i| {
+            let lexemes = decode_lexemes(i, &BASE, l_typed);
+            if lexemes.len() < 2 {
+                return;
+            }
+            let typed = ReplHighlighter::new();
+            let mut text = String::new();
+            let mut steps: Vec<String> = vec![];
+            for lx in &lexemes {
+                text.push_str(lx);
+                steps.push(text.clone());
+            }
+            // the deletion step
+            steps.push(steps[steps.len() - 2].clone());
+            for (si, t) in steps.iter().enumerate() {
+                let last_two = si + 2 >= steps.len();
+                let cursors: Vec<usize> = if last_two { (0..=t.len() + 1).collect() } else { vec![t.len()] };
+                for c in cursors {
+                    acc.evals += 1;
+                    let fresh = ReplHighlighter::new();
+                    let r = std::panic::catch_unwind(std::panic::AssertUnwindSafe(|| {
+                        ((typed.highlight(t, c).to_string(), typed.highlight_check(t, c)), (fresh.highlight(t, c).to_string(), fresh.highlight_check(t, c)))
+                    }));
+                    match r {
+                        Ok((a, b)) if a == b => acc.nontrivial += 1,
+                        Ok((a, b)) => {
+                            acc.violation(Violation {
+                                key: format!("typed:{:?}@{}", steps, c),
+                                class: Some("history-dependent".into()),
+                                observed: "differs-from-fresh-highlighter".into(),
+                                detail: json!({"texts_given_in_order": steps, "text": t, "cursor": c, "reused_instance": [a.0, a.1], "fresh_instance": [b.0, b.1]}),
+                            });
+                            return;
+                        }
+                        Err(e) => {
+                            acc.violation(Violation {
+                                key: format!("typed:{:?}@{}", steps, c),
+                                class: Some("history-dependent".into()),
+                                observed: "panic".into(),
+                                detail: json!({"texts_given_in_order": steps, "text": t, "cursor": c, "panic": panic_message(&e)}),
+                            });
+                            return;
+                        }
+                    }
+                }
+            }
+        },
+        Acc::merge,
+        acc_zero,
+    );
+    let acc = Acc::merge(Acc::merge(Acc::merge(acc1, acc2), acc3), acc4);
     rep.rule = format!(
-        "every string of <= {} lexemes over {:?} with every cursor 0..=len+2 ({} strings); every string of <= {} lexemes over that alphabet plus 'é' containing 'é', cursors 0..=len+2 (including inside the 2-byte character) and far cursors up to usize::MAX; far cursors on all strings of <= 4 lexemes. A case (text,cursor) is non-trivial when the reference matcher finds a partner to underline; cases are distinct because the lexeme code is uniquely decodable.",
-        l_base, BASE, n1, l_ext
+        "every string of <= {} lexemes over {:?} with every cursor 0..=len+2 ({} strings); every string of <= {} lexemes over that alphabet plus 'é' containing 'é', cursors 0..=len+2 (including inside the 2-byte character) and far cursors up to usize::MAX; far cursors on all strings of <= 4 lexemes; typing histories: every string of 2..{} lexemes given to one highlighter instance prefix by prefix (cursor at the end) and then with the last lexeme deleted, the answers for every cursor of the last two texts compared with a fresh instance's. A case (text,cursor) is non-trivial when the reference matcher finds a partner to underline; cases are distinct because the lexeme code is uniquely decodable.",
+        l_base, BASE, n1, l_ext, l_typed
     );
     rep.extra("strings_base", json!(n1));
     rep.extra("max_lexemes", json!(l_base));
